@@ -2743,7 +2743,8 @@ func _return(n *node) {
 
 	switch len(child) {
 	case 0:
-		n.exec = nil
+		// The statement is a step of the execution on its own, where the debugger may stop.
+		n.exec = func(*frame) bltn { return nil }
 	case 1:
 		switch {
 		case !child[0].rval.IsValid() && child[0].kind == binaryExpr && child[0].findex == 0:
